@@ -78,12 +78,24 @@ def cmdParse (input : List Char) (hashed : Bool) : String :=
       s!"tree#{hex16 (fnvFeed fnvInit tree)} n={parts.size} errs#{hex16 (fnvFeed fnvInit errs)} ne={r.errors.length}"
     else s!"tree={tree} errs={errs}"
 
+partial def countLeaves (t : Tree) : Nat :=
+  match t with
+  | .token _ _ => 1
+  | .node _ cs => cs.foldl (fun n c => n + countLeaves c) 0
+
+def cmdSteps (input : List Char) : String :=
+  match Grammar.parse input with
+  | .panic w => s!"PANIC {repr w}"
+  | .outOfFuel => "OUT-OF-FUEL"
+  | .ok r => s!"steps={r.steps} ntok={countLeaves r.tree}"
+
 def dispatch (cmd rest : String) : String :=
   match cmd with
   | "lex" => match payload rest with | some s => cmdLex s | none => "bad-utf8"
   | "prep" => match payload rest with | some s => cmdPrep s | none => "bad-utf8"
   | "parse" => match payload rest with | some s => cmdParse s false | none => "bad-utf8"
   | "parseh" => match payload rest with | some s => cmdParse s true | none => "bad-utf8"
+  | "steps" => match payload rest with | some s => cmdSteps s | none => "bad-utf8"
   | "li" => LineIndex.cmd rest
   | _ => s!"bad-cmd {cmd}"
 
